@@ -339,8 +339,12 @@ func runScen(s scen) {
 					return
 				default:
 				}
+				// not one atomic snapshot: the muxer state is read FIRST. Every cross clause the checker
+				// uses has the form "muxer state >= k implies a monotone tube fact" (stopped => r.closed
+				// signalled and state closed), which survives reading the tube later, not earlier.
+				msv := cm.VerifMuxerState()
 				a, b, c := cr.VerifShutdownState()
-				smp := sample{a, b, c, cm.VerifMuxerState()}
+				smp := sample{a, b, c, msv}
 				trMu.Lock()
 				if len(trace) == 0 || trace[len(trace)-1] != smp {
 					trace = append(trace, smp)
@@ -502,8 +506,9 @@ func runScen(s scen) {
 	}
 	// final sample
 	if cr != nil && setupOK {
+		msv := cm.VerifMuxerState()
 		a, b, c := cr.VerifShutdownState()
-		smp := sample{a, b, c, cm.VerifMuxerState()}
+		smp := sample{a, b, c, msv}
 		if len(trace) == 0 || trace[len(trace)-1] != smp {
 			trace = append(trace, smp)
 		}
